@@ -20,6 +20,7 @@ SigAlgId(a) ==
     [] a = "ecdsa-p384-sha384" -> "300a06082a8648ce3d040303"
     [] a = "ecdsa-p521-sha512" -> "300a06082a8648ce3d040304"
     [] a = "ed25519"           -> "300506032b6570"
+    [] OTHER                   -> "not-a-registered-algorithm"
 
 (* AlgorithmIdentifier inside SubjectPublicKeyInfo: RFC 3279/4055 rsaEncryption + NULL, RFC 5480       *)
 (* id-ecPublicKey + namedCurve, RFC 8410 id-Ed25519 with absent parameters                             *)
